@@ -98,19 +98,18 @@ theorem C09_7z_trace (T : Tables) (nested : List Str) (env : Env) (lim : Limits)
   · rename_i hc
     left; exact ⟨hc, rfl, rfl⟩
   · right
-    have hx := extractAllFull_evIn env cwd base (buildFiles a.entries a.fileSizes a.emptyFiles)
-      (mapFiles a.folders (buildFiles a.entries a.fileSizes a.emptyFiles) 0 0 0) a.folderData a.folders ⟨[], [], none⟩ habs hnorm (by simp)
+    have hx := fun files fmap w => extractAllFull_evIn env cwd base files fmap a.folderData a.folders w ⟨[], [], none⟩ habs hnorm (by simp)
     simp only
     split
-    · exact ⟨_, rfl, hx⟩
+    · exact ⟨_, rfl, hx _ _ _⟩
     · refine ⟨_, assoc4 _ _ _ _, ?_⟩
       intro e he
       rcases List.mem_append.mp he with h1 | h1
-      · exact hx e h1
+      · exact hx _ _ _ e h1
       · obtain ⟨s, hs, hes⟩ := consume_evs _ _ e h1
-        obtain ⟨f, _, hf⟩ := List.mem_map.mp hs
+        obtain ⟨nf, _, hf⟩ := List.mem_map.mp hs
         subst hf
-        exact readBack_evIn env lim cwd base _ f habs hnorm e hes
+        exact readBack_evIn env lim cwd base _ nf.2 habs hnorm e hes
 
 /-- every write and every directory creation of `extractall` is inside the private directory -/
 theorem C09_writes_confined (T : Tables) (nested : List Str) (env : Env) (lim : Limits) (cwd base : Str) (a : SevenZ)
@@ -175,7 +174,7 @@ theorem C09_host_irrelevant (T : Tables) (nested : List Str) (env : Env) (h' : S
   have hrb : readBack (withHost env h') lim cwd base = readBack env lim cwd base := by
     funext fs f; exact readBack_host env h' lim cwd base fs f habs hnorm
   rw [hskip, hrb]
-  simp only [extractAllFull_host env h' cwd base _ _ _ _ _ habs hnorm]
+  simp only [extractAllFull_host env h' cwd base _ _ _ _ _ _ habs hnorm]
 
 /-- two environments that agree on the interpreter (`lower`, `mime`, member extractors) but have
     arbitrary, different host file systems give the same run -/
@@ -345,10 +344,12 @@ theorem C09_7z_results (T : Tables) (nested : List Str) (env : Env) (lim : Limit
     · simp
     · intro r hr
       obtain ⟨s, hs, hrs⟩ := consume_res _ _ r hr
-      obtain ⟨f, hf, hfs⟩ := List.mem_map.mp hs
+      obtain ⟨nf, hf, hfs⟩ := List.mem_map.mp hs
       subst hfs
       unfold select7z at hf
-      obtain ⟨hfm, hcond⟩ := List.mem_filter.mp hf
+      obtain ⟨hfm', hcond⟩ := List.mem_filter.mp hf
+      have hfm := mem_indexed _ 0 nf.1 nf.2 hfm'
+      generalize nf.2 = f at *
       simp only [Bool.and_eq_true, Bool.not_eq_true', decide_eq_false_iff_not] at hcond
       unfold readBack at hrs
       split at hrs
@@ -500,6 +501,17 @@ example :
       .write (sampleBase ++ "/d/e.txt".toList), .probe (sampleBase ++ "/d/e.txt".toList), .read (sampleBase ++ "/d/e.txt".toList),
       .probe (sampleBase ++ "/a.txt".toList), .read (sampleBase ++ "/a.txt".toList), .rmtree sampleBase] ∧
     t.res = [("d/e.txt".toList, []), ("a.txt".toList, [65])] := by
+  decide +kernel
+
+/-- only the members that passed the filters are written: the unsupported file `a` is stepped over (so it does
+    not block the directory `a/`), the member behind it is written from its own offset and read back -/
+example :
+    let t := run7z S2T.Gen.Router.tables S2T.Gen.Archive.nested (demoEnv (fun _ => none)) genLimits "/work".toList sampleBase
+      { entries := [⟨"a".toList, false, false⟩, ⟨"a/b.txt".toList, false, false⟩, ⟨"../x.bin".toList, false, false⟩],
+        fileSizes := [1, 2, 1], emptyFiles := [], folders := [3], folderData := [some [65, 66, 67, 68]] } .exhaust
+    t.evs = [.mkdtemp sampleBase, .mkdir (sampleBase ++ "/a".toList), .write (sampleBase ++ "/a/b.txt".toList),
+      .probe (sampleBase ++ "/a/b.txt".toList), .read (sampleBase ++ "/a/b.txt".toList), .rmtree sampleBase] ∧
+    t.res = [("a/b.txt".toList, [66, 67])] ∧ t.out = .finished := by
   decide +kernel
 
 /-- UNREPAIRED skip rule: `inner.gz` is routed to `read_archive` by the router (alias gz ↦ tgz) but is
